@@ -56,3 +56,17 @@ def bins(relpath, tag):
 
 UNITS = [sliding(F1, 'bamToCountTable'), bins(F1, 'bamToCountTable'),
          sliding(F2, 'utils.binning'), bins(F2, 'utils.binning')]
+
+
+# the bin-increment block of assignReads is verified in contracts/c11.py (it needs the read/args stubs defined there);
+# the unit is part of this property's obligations as well
+def _assign_binned():
+    from contracts import c11
+    import copy
+    u = copy.copy(c11.assign_binned)
+    u.prop = PROP
+    u.name = 'assignReads.bin_increment[-bin, no sliding]'
+    return u
+
+
+UNITS.append(_assign_binned())
